@@ -1802,6 +1802,24 @@ std::string expression_t::str(bool old) const
     return os.str();
 }
 
+/**
+ * The symbol of the function called by a FUN_CALL node. In P.f(...) the callee is a member of the
+ * process P (get_symbol() would return P): the function is found in the frame of P's template.
+ */
+static symbol_t get_called_function(const expression_t& call)
+{
+    const expression_t& callee = call.get(0);
+    symbol_t symbol = callee.get_symbol();
+    if (callee.get_kind() == DOT && symbol != symbol_t() && callee.get(0).get_type().is_process() &&
+        symbol.get_data() != nullptr) {
+        const auto* process = static_cast<const instance_t*>(symbol.get_data());
+        const auto index = callee.get_index();
+        if (process->templ != nullptr && index >= 0 && static_cast<size_t>(index) < process->templ->frame.get_size())
+            return process->templ->frame[index];
+    }
+    return symbol;
+}
+
 void expression_t::collect_possible_writes(set<symbol_t>& symbols) const
 {
     function_t* fun;
@@ -1835,7 +1853,7 @@ void expression_t::collect_possible_writes(set<symbol_t>& symbols) const
     case FUN_CALL:
     case FUN_CALL_EXT:
         // Add all symbols which are changed by the function
-        symbol = get(0).get_symbol();
+        symbol = get_called_function(*this);
         if ((symbol.get_type().is_function() || symbol.get_type().is_function_external()) && symbol.get_data()) {
             fun = (function_t*)symbol.get_data();
 
@@ -1868,7 +1886,7 @@ void expression_t::collect_possible_reads(set<symbol_t>& symbols, bool collectRa
 
     case FUN_CALL: {
         // Add all symbols which are used by the function
-        auto symbol = get(0).get_symbol();
+        auto symbol = get_called_function(*this);
         if (auto type = symbol.get_type(); type.is_function() || type.is_function_external()) {
             if (auto* data = symbol.get_data(); data) {
                 auto fun = static_cast<function_t*>(data);
